@@ -33,8 +33,8 @@ type zvC17Unk struct {
 type zvC17Expect struct {
 	ASN4      bool
 	AddPath   bool
-	MP        bool   // NLRI travel in MP_REACH_NLRI
-	AFI       uint16 // family of the NLRI
+	MP        bool       // NLRI travel in MP_REACH_NLRI
+	AFI       uint16     // family of the NLRI
 	ASPath    []zvC17Seg // canonical form
 	Origin    uint8
 	NextHop   []byte
@@ -178,8 +178,10 @@ type zvC17Verdict struct {
 
 func (v zvC17Verdict) bad() bool { return v.Kind != "" }
 
-func zvC17Be16(b []byte) int    { return int(b[0])<<8 | int(b[1]) }
-func zvC17Be32(b []byte) uint32 { return uint32(b[0])<<24 | uint32(b[1])<<16 | uint32(b[2])<<8 | uint32(b[3]) }
+func zvC17Be16(b []byte) int { return int(b[0])<<8 | int(b[1]) }
+func zvC17Be32(b []byte) uint32 {
+	return uint32(b[0])<<24 | uint32(b[1])<<16 | uint32(b[2])<<8 | uint32(b[3])
+}
 
 // zvC17Header checks marker, length and type; returns the body.
 func zvC17Header(msg []byte, typ uint8) ([]byte, zvC17Verdict) {
@@ -280,8 +282,12 @@ func zvC17CheckUpdateRFC(msg []byte, e *zvC17Expect) zvC17Verdict {
 	if v.bad() {
 		return v
 	}
-	mal := func(attr, f string, a ...any) zvC17Verdict { return zvC17Verdict{"malformed", attr, fmt.Sprintf(f, a...)} }
-	mis := func(attr, f string, a ...any) zvC17Verdict { return zvC17Verdict{"mismatch", attr, fmt.Sprintf(f, a...)} }
+	mal := func(attr, f string, a ...any) zvC17Verdict {
+		return zvC17Verdict{"malformed", attr, fmt.Sprintf(f, a...)}
+	}
+	mis := func(attr, f string, a ...any) zvC17Verdict {
+		return zvC17Verdict{"mismatch", attr, fmt.Sprintf(f, a...)}
+	}
 	if len(body) < 4 {
 		return mal("update", "body of %d bytes", len(body))
 	}
@@ -616,12 +622,12 @@ type zvC17Cap struct {
 }
 
 type zvC17OpenContent struct {
-	Version  uint8
-	AS       uint16
-	Hold     uint16
-	ID       uint32
-	Caps     []zvC17Cap
-	NParams  int
+	Version uint8
+	AS      uint16
+	Hold    uint16
+	ID      uint32
+	Caps    []zvC17Cap
+	NParams int
 }
 
 func zvC17CapsEqual(a, b []zvC17Cap) bool {
